@@ -300,7 +300,7 @@ func report(o opts, s *prep.Scratch, m *merged, t0 time.Time) int {
 			m.stats.Probes["in-process-state-artefacts-dropped"]++
 			continue
 		}
-		if code != 1 || !strings.Contains(outp, "REPRODUCED") || strings.Contains(outp, "NOT-REPRODUCED") {
+		if code != 1 || !(strings.Contains(outp, "REPRODUCED") || strings.Contains(outp, "NONDETERMINISTIC")) || (strings.Contains(outp, "NOT-REPRODUCED") && !strings.Contains(outp, "NONDETERMINISTIC")) {
 			fatal2("violation %s (%s) did not reproduce from its replay file %s in a fresh process:\n%s", o.prop, sig, path, outp)
 		}
 		status, why := confirmReal(s, v)
@@ -386,10 +386,20 @@ func report(o opts, s *prep.Scratch, m *merged, t0 time.Time) int {
 func runReplay(s *prep.Scratch, path string) (string, int) {
 	out, code := runReplayN(s, path, 1, false)
 	if code == 0 && strings.Contains(out, "NOT-REPRODUCED") {
+		// a nondeterministic program first: the identical worlds again, one process per build
+		if o2, c2 := runReplayN(s, path, 60, false); c2 == 1 {
+			return o2, 1
+		}
 		if o2, c2 := runReplayN(s, path, 1, true); c2 == 1 {
 			return "IN-PROCESS-ARTEFACT: reproduces only when several builds share one process\n" + o2, 10
 		}
 		out, code = runReplayN(s, path, 400, false)
+		if code == 0 && len(s.RepoRep.GoStmts) > 0 {
+			// the tree starts goroutines the simulator does not schedule: the divergence was observed (both
+			// outcomes are in the replay file) but this program cannot be made to repeat it on demand
+			return "NONDETERMINISTIC: observed once, not reproduced in 461 further executions; the tree contains go statements (" +
+				strings.Join(s.RepoRep.GoStmts, ", ") + "), its behaviour is not a function of the simulated inputs\n" + out, 1
+		}
 	}
 	return out, code
 }
